@@ -670,6 +670,25 @@ def addr_len_ok(ctx, t, type_term):
     return vals == [4, 16]
 
 
+def eval_fmt(t, leaf):
+    """the text of a struct format term for given values of the leaves: a constant, 'x{0}'.format(args), an entry of a literal
+    table of formats selected by a key, or a conditional between such"""
+    t = strip_ids(t)
+    if t[0] == 'const' and isinstance(t[2], str):
+        return t[2]
+    if tq.is_call(t, 'method.format') and t[2][0] == 'const' and isinstance(t[2][2], str):
+        return t[2][2].format(*[tq.teval(a, leaf) for _, a in t[3]])
+    if t[0] == 'index' and t[1][0] == 'dict':
+        key = tq.teval(t[2], leaf)
+        for e in t[1][1]:
+            if len(e) == 2 and tq.teval(e[0], leaf) == key:
+                return eval_fmt(e[1], leaf)
+        raise tq.NoValue()
+    if t[0] == 'cond':
+        return eval_fmt(t[2] if tq.teval(t[1], leaf) else t[3], leaf)
+    raise tq.NoValue()
+
+
 def check_ts(ctx, r1='W1', r2='W2'):
     prog = ctx.prog
     c = prog.cls(M + 'TrafficSelector')
@@ -680,22 +699,48 @@ def check_ts(ctx, r1='W1', r2='W2'):
     pk, rest = first_pack(E.ret())
     ctx.require(len(ups) == 2 and pk is not None and not rest, 'anchor vanished: TrafficSelector codec')
     f0, _, b0 = upos(ups[0])
-    f1, _, b1 = upos(ups[1])
-    fe = fmt_of(list(tq.args(pk).values())[0])
+    _, _, b1 = upos(ups[1])
+    f1_t = list(ups[1].args.values())[0]
+    fe_t = list(tq.args(pk).values())[0]
+    me = ('param', 'self')
     b0 = b0 if b0 is not None else const(0)
     rel = b1 is not None and strip_ids(b1) == strip_ids(D.mk_cmp('==', NONE, NONE) and ('add', (b0, const(8))) if b0 != const(0) else const(8))
     if b0 != const(0) and b1 is not None:
         from ..sval import mk_bin
         rel = strip_ids(b1) == strip_ids(mk_bin('+', b0, const(8)))
-    for A in (4, 16):
-        l1, s1 = layout(f0)
-        l2, s2 = layout(f1, A)
-        le, se = layout(fe, A)
-        ok = l1 == [(0, 1), (1, 1), (2, 2), (4, 2), (6, 2)] and l2 == [(0, A), (A, A)] and rel \
-            and le == [(0, 1), (1, 1), (2, 2), (4, 2), (6, 2), (8, A), (8 + A, A)]
+
+    def formats(ts):
+        """(address pair format of the decoder, selector format of the encoder) for a selector of type ts"""
+        def leaf(x):
+            x = strip_ids(x)
+            if x in (('index', strip_ids(ups[0].term), const(0)), ('attr', me, 'ts_type')):
+                return ts
+            if x[0] == 'global' and x[1].endswith('TS_IPV4_ADDR_RANGE'):
+                return 7
+            if x[0] == 'global' and x[1].endswith('TS_IPV6_ADDR_RANGE'):
+                return 8
+            raise tq.NoValue()
+        out = []
+        for t in (f1_t, fe_t):
+            try:
+                out.append(eval_fmt(t, leaf))
+            except (tq.NoValue, Exception):
+                out.append(None)
+        return out
+    per_type = {}
+    for ts, A in ((7, 4), (8, 16)):
+        f1, fe = formats(ts)
+        per_type[ts] = (f1, fe)
+        ok = f0 is not None and f1 is not None and fe is not None
+        if ok:
+            l1, s1 = layout(f0)
+            l2, s2 = layout(f1)
+            le, se = layout(fe)
+            ok = l1 == [(0, 1), (1, 1), (2, 2), (4, 2), (6, 2)] and l2 == [(0, A), (A, A)] and rel \
+                and le == [(0, 1), (1, 1), (2, 2), (4, 2), (6, 2), (8, A), (8 + A, A)]
         ctx.check(ok, r1, 'Traffic Selector (3.13.1) with %d-octet addresses: type, protocol, length, start port, end port, '
                   'start address, end address at offsets 0,1,2,4,6,8,%d in both directions' % (A, 8 + A), key=(r1, 'ts-layout', A),
-                  site=ctx.site(pf, pf.node))
+                  site=ctx.site(pf, pf.node), detail={'decoder address format': f1, 'encoder format': fe})
     ap = attr_params(ctx, c)
     rets = ctor_returns(ctx, c, pf)
     used = set()
@@ -736,12 +781,19 @@ def check_ts(ctx, r1='W1', r2='W2'):
         ok = vals == [16, 40]
     ctx.check(ok, r1, 'Traffic Selector: the encoder writes the same attributes at those positions and length = 8 + 2 * address width',
               key=(r1, 'ts', 'encode-args'), site=ctx.site(tb, tb.node), detail={'found': [tq.text(a) for a in ea]})
-    fa_d = tq.args(list(ups[1].args.values())[0]) if tq.is_call(list(ups[1].args.values())[0], 'method.format') else {}
-    fa_e = tq.args(list(tq.args(pk).values())[0]) if tq.is_call(list(tq.args(pk).values())[0], 'method.format') else {}
-    ctx.check(len(fa_d) == 1 and addr_len_ok(ctx, list(fa_d.values())[0], ('index', ups[0].term, const(0))), r2,
+    def widths(i):
+        out = []
+        for ts in (7, 8):
+            f = per_type[ts][i]
+            try:
+                out.append([w for _, w in layout(f)[0]][-2:] if f is not None else None)
+            except AnalysisError:
+                out.append(None)
+        return out
+    ctx.check(widths(0) == [[4, 4], [16, 16]], r2,
               'Traffic Selector: address width is 4 for TS_IPV4_ADDR_RANGE (7) and 16 for TS_IPV6_ADDR_RANGE (8) in parse',
               key=(r2, 'ts-addr-len', 'parse'), site=ctx.site(pf, pf.node))
-    ctx.check(len(fa_e) == 1 and addr_len_ok(ctx, list(fa_e.values())[0], ('attr', me, 'ts_type')), r2,
+    ctx.check(widths(1) == [[4, 4], [16, 16]], r2,
               'Traffic Selector: address width is 4 for TS_IPV4_ADDR_RANGE (7) and 16 for TS_IPV6_ADDR_RANGE (8) in to_bytes',
               key=(r2, 'ts-addr-len', 'to_bytes'), site=ctx.site(tb, tb.node))
     # TS payload loop: selectors are cut by their own length field
